@@ -37,6 +37,9 @@ fn main() {
     let thorough = args.get(4).map_or(false, |s| s == "thorough");
     let corpus_file = args.get(5).cloned().unwrap_or_default();
     silent_panics();
+    // hang detection: generous for the suites (bulk phases bump the counter per operation), short for replays
+    let wd: u64 = std::env::var("VERIF_WATCHDOG").ok().and_then(|v| v.parse().ok()).unwrap_or(if suite == "replay" { 6 } else { 20 });
+    start_watchdog(wd);
     if suite == "replay" {
         // replay <file>: every line a history; prints outputs; oracle failures go to <outdir>/oracle.jsonl
         let mut out = Out::new(&format!("{}.replay", outdir));
